@@ -141,13 +141,15 @@ def gen_history(rng, case, n_ops, change_ops=True):
         # deliberate scenario: a Monte Carlo read of one result (own selection or global setting),
         # then the FIRST derivative read of a result that has nothing buffered (recalculated, or a
         # twin created now), next to the formula built afresh
-        n = rng.choice(qn[-3:])
+        dp = _deps(case)
+        both = [x for x in qn if any(r_[0] in dp[x] and r_[1] in dp[x] for r_ in case["rho"])]
+        n = rng.choice(both or qn[-3:])
         route = rng.choice(["node", "global"])
         ops.append(["setMethod", n, "monte-carlo"] if route == "node" else ["setGlobal", "monte-carlo"])
         if route == "global":
             ops.append(["resetMethod", n])
         ops.append(["read", n])
-        n2 = rng.choice(qn[-3:])
+        n2 = rng.choice(both or qn[-3:])
         ops.append(["recalc", n2])
         ops.append(["setGlobal", "derivative"])
         ops.append(["setMethod", n2, "derivative"])
@@ -217,6 +219,15 @@ def gen_history(rng, case, n_ops, change_ops=True):
     return ops
 
 
+def _deps(case):
+    """node -> set of source measurements its formula contains"""
+    deps = {}
+    for k, nd in enumerate(case["nodes"]):
+        deps[k] = {nd[1]} if nd[0] == "var" else set() if nd[0] in ("const", "pair") else \
+            set().union(*[deps[j] for j in nd[2:]])
+    return deps
+
+
 def gen_case(rng, n_ops, change_ops=True):
     while True:
         c = exprgen.gen_case(rng, max_ops=5, max_meas=4, allow_pairs=False, allow_corr=False)
@@ -264,6 +275,12 @@ def gen_case(rng, n_ops, change_ops=True):
             # pairs: positive semi-definite by construction)
             idx = list(range(c["n_meas"]))
             rng.shuffle(idx)
+            # prefer two sources that meet in one result
+            dp = _deps(c)
+            joint = [sorted(dp[n]) for n in quantity_nodes(c) if len(dp[n]) >= 2]
+            if joint:
+                first = rng.sample(rng.choice(joint), 2)
+                idx = first + [x for x in idx if x not in first]
             pairs = [idx[0:2]] + ([idx[2:4]] if len(idx) >= 4 and rng.random() < 0.4 else [])
             for i, j in pairs:
                 rr = rng.choice([1.0, -1.0]) if rng.random() < 0.45 else round(rng.uniform(-0.9, 0.9), 3)
